@@ -224,7 +224,7 @@ class ProtocolHooks(D.DomHooks):
     def should_inline(self, fname, node, info):
         if info is not None and info.name in ('mixin', 'unmix', 'cacheFilenames', 'cleanup', 'render') and getattr(node, 'name', '') == info.name:
             return False
-        return A.private_only(fname, node, info)
+        return A.helpers_anywhere(fname, node, info)
 
     def call(self, interp, node, fname, args, kwargs, state):
         if fname == 'type' and len(args) == 1 and isinstance(args[0], A.Obj) and isinstance(args[0].cls, M.ClassInfo):
